@@ -1010,7 +1010,7 @@ pub fn c03_edge_pairs(seed: u64, nvals: u64) -> Phase {
 /// and without a macro head. Counts - not values, positions or lengths - are what a fixed-capacity buffer,
 /// a narrow counter or a "cannot happen more than capacity / 2 times" estimate depends on.
 pub fn c05_repeated_atoms() -> Phase {
-    const NATOMS: u64 = 18;
+    const NATOMS: u64 = 24;
     // around powers of two, and around round decimal numbers (limits are written in decimal as often as in binary)
     const EXTRA: [u64; 40] = [
         2047, 2048, 2049, 4095, 4096, 4097, 8191, 8192, 8193, 16384, 32767, 32768, 32769, 65535, 65537, 1997, 1998, 1999, 2000, 2001, 4999, 5000, 5001, 9997, 9998,
@@ -1055,7 +1055,14 @@ pub fn c05_repeated_atoms() -> Phase {
                 14 => data.extend_from_slice(&[233, 0x11, 1, 1]),  // structured append (legal only first)
                 15 => data.push(234),                              // reader programming
                 16 => data.extend_from_slice(&[230, 0x06, 0x69]),  // C40 latch + shift values, never unlatched
-                _ => data.extend_from_slice(&[241, 27, 31, 5]),    // ECI + RS EOT (the macro trailer as data)
+                17 => data.extend_from_slice(&[241, 27, 31, 5]),   // ECI + RS EOT (the macro trailer as data)
+                // two DIFFERENT constructs alternating: mode toggles back to back
+                18 => data.extend_from_slice(&[230, 254, 239, 254]),                       // C40 / Text, empty bodies
+                19 => data.extend_from_slice(&[230, 0x59, 0xBF, 254, 239, 0x59, 0xBF, 254]), // C40 / Text with a triple each
+                20 => data.extend_from_slice(&[238, 0x59, 0xBF, 254, 230, 0x59, 0xBF, 254]), // X12 / C40
+                21 => data.extend_from_slice(&[240, 0x04, 0x21, 0x5F, 230, 254]),          // EDIFACT / C40
+                22 => data.extend_from_slice(&[241, 27, 230, 254]),                        // charset switch / C40 toggle
+                _ => data.extend_from_slice(&[235, 1, 241, 4]),                            // upper shift / charset switch
             }
         }
         Trace { prop: "C05".into(), producer: Producer::Stream { data }, faults: vec![] }
@@ -1316,9 +1323,10 @@ pub fn c05_pad_structures() -> Phase {
 }
 
 /// A valid rendering of every size embedded in a frame of 1, 2 or 3 modules (light / dark / alternating) - a
-/// captured quiet zone or a crop taken too wide - and the same with the outer ring of the symbol cut away.
+/// captured quiet zone or a crop taken too wide -, with the outer ring of the symbol cut away, and magnified (every
+/// module drawn as 2x2, 3x3, 4x4 pixels).
 pub fn framed_symbols(prop: &'static str, seed: u64) -> Phase {
-    let per_size: u64 = 3 * 3 + 1;
+    let per_size: u64 = 3 * 3 + 1 + 3;
     let total = N_SIZES as u64 * per_size;
     let make = move |_ctx: &Ctx, i: u64| -> Trace {
         let si = (i / per_size) as usize;
@@ -1327,6 +1335,9 @@ pub fn framed_symbols(prop: &'static str, seed: u64) -> Phase {
         let mut faults = Vec::new();
         if r < 9 {
             faults.push(Fault::new("geo_frame", Op::GeoFrame { n: (r / 3 + 1) as u32, fill: (r % 3) as u32 }));
+        } else if r >= 10 {
+            // the symbol magnified: every module drawn as 2x2, 3x3, 4x4 pixels
+            faults.push(Fault::new("geo_frame", Op::GeoScale { k: (r - 8) as u32 }));
         } else {
             // the outer ring cut away
             faults.push(Fault::new("geo_row_drop", Op::GeoRowDrop { r: (s.rows - 1) as u32 }));
@@ -1404,9 +1415,9 @@ pub fn c05_unicode_encodings() -> Phase {
         0x41, 0x7F, 0x80, 0xFF, 0x7FF, 0x800, 0xD7FF, 0xE000, 0xFEFF, 0xFFFD, 0xFFFE, 0xFFFF, 0x10000, 0x1F600, 0x1FFFF, 0x20000, 0x2FFFF,
         0x30000, 0xE0000, 0xFFFFF, 0x100000, 0x10FFFF,
     ];
-    const ECIS: [u8; 7] = [25, 26, 33, 34, 35, 3, 27];
+    const ECIS: [u8; 8] = [25, 26, 33, 34, 35, 3, 27, 255]; // 255: no designator in front
     const NFORM: u64 = 9;
-    const NVAR: u64 = 5 + 8;
+    const NVAR: u64 = 5 + 8 + 4;
     let n_cp = CPS.len() as u64;
     let total = n_cp * n_cp.min(6) * NFORM * ECIS.len() as u64 * NVAR;
     let make = move |_ctx: &Ctx, i: u64| -> Trace {
@@ -1508,13 +1519,18 @@ pub fn c05_unicode_encodings() -> Phase {
             }
             _ => {}
         }
-        let mut data: Vec<u8> = vec![241, eci + 1];
-        for b in bytes {
-            if b < 128 {
-                data.push(b + 1);
+        let mut data: Vec<u8> = if eci == 255 { vec![] } else { vec![241, eci + 1] };
+        // variants 13..16: a charset switch torn into the text after its 1st, 2nd, 3rd, 4th byte
+        let tear_at = if var >= 13 { Some((var - 12) as usize) } else { None };
+        for (bi, b) in bytes.iter().enumerate() {
+            if tear_at == Some(bi) {
+                data.extend_from_slice(&[241, 27]);
+            }
+            if *b < 128 {
+                data.push(*b + 1);
             } else {
                 data.push(235);
-                data.push(b - 127);
+                data.push(*b - 127);
             }
         }
         Trace { prop: "C05".into(), producer: Producer::Stream { data }, faults: vec![] }
@@ -1889,6 +1905,56 @@ pub fn c05_long_charset_runs() -> Phase {
     };
     Phase {
         source: Source::Sweep { name: "sweep_long_runs_under_a_charset".into(), prop: "C05".into(), make: Box::new(make) },
+        runs: total,
+        wall_cap_s: 0,
+    }
+}
+
+/// Exactly T wrong fixed modules, T = 127, 128, 129, 255, 256, 257 (where a narrow counter wraps): the first T fixed
+/// modules - in row-major order - of (a) the whole symbol, (b) each region row's two horizontal lines, (c) each region
+/// column's two vertical lines, (d) a single line; for every size in which the scope holds that many.
+pub fn c08_wrong_module_totals(seed: u64) -> Phase {
+    const TARGETS: [usize; 6] = [127, 128, 129, 255, 256, 257];
+    let mut table: Vec<(usize, Vec<u32>)> = Vec::new();
+    for s in SIZES.iter() {
+        let tpl = crate::catalogue::fixed_template(s);
+        let (h, w) = (s.rows, s.cols);
+        let rh = h / s.reg_rows;
+        let rw = w / s.reg_cols;
+        let mut scopes: Vec<Vec<u32>> = Vec::new();
+        scopes.push((0..h * w).filter(|i| tpl[*i].is_some()).map(|i| i as u32).collect());
+        for rr in 0..s.reg_rows {
+            let (top, bot) = (rr * rh, (rr + 1) * rh - 1);
+            // clock row first (then the solid row), and the other way round
+            scopes.push((0..w).map(|c| (top * w + c) as u32).chain((0..w).map(|c| (bot * w + c) as u32)).collect());
+            scopes.push((0..w).map(|c| (bot * w + c) as u32).chain((0..w).map(|c| (top * w + c) as u32)).collect());
+            scopes.push((0..w).map(|c| (top * w + c) as u32).collect());
+            scopes.push((0..w).map(|c| (bot * w + c) as u32).collect());
+        }
+        for rc in 0..s.reg_cols {
+            let (l, r) = (rc * rw, (rc + 1) * rw - 1);
+            scopes.push((0..h).map(|y| (y * w + r) as u32).chain((0..h).map(|y| (y * w + l) as u32)).collect());
+            scopes.push((0..h).map(|y| (y * w + l) as u32).chain((0..h).map(|y| (y * w + r) as u32)).collect());
+        }
+        for sc in scopes {
+            for t in TARGETS {
+                if sc.len() >= t {
+                    table.push((s.idx, sc[..t].to_vec()));
+                }
+            }
+        }
+    }
+    let total = table.len() as u64;
+    let make = move |_ctx: &Ctx, i: u64| -> Trace {
+        let (si, px) = &table[i as usize];
+        Trace {
+            prop: "C08".into(),
+            producer: Producer::Raw { size: *si, data: seeded_data(seed, *si, i % 3) },
+            faults: px.iter().map(|p| Fault::new("fix_track", Op::PxFlip { idx: *p })).collect(),
+        }
+    };
+    Phase {
+        source: Source::Sweep { name: "sweep_totals_of_wrong_fixed_modules".into(), prop: "C08".into(), make: Box::new(make) },
         runs: total,
         wall_cap_s: 0,
     }
